@@ -315,4 +315,194 @@ Section CowOps.
     - intros value. eapply T_pre; [|apply (mutate_attr_cow_T l cl d k a value true Fc Km Hk)].
       intros h [[I1 N1] L1]. split; auto. split; auto. split; auto. intros E; discriminate.
   Qed.
+
+  (* ---------- element helpers, copy-on-write ---------- *)
+  Local Opaque exec XFUEL.
+  Let HrecMv := Hmv ct Hflat XFUEL.
+
+  (* protect_via_deepcopy of the collection the attribute holds: a fresh conforming copy *)
+  Lemma protect_held l cl (d : list (nat * val)) k a sp fam lx s :
+    Inv (heap s) -> nth_error (heap s) l = Some (OInst cl d) -> lookup_cls ct cl = Some k ->
+    lookup_attr k a = Some sp -> leaf_coll sp fam -> assoc a d = Some (VRef lx) ->
+    match protect ct (VRef lx) s with
+    | (Ok c, s1) => exists fc, c = VRef fc /\
+          (Inv (heap s1) /\ inst_at l cl d (heap s1) /\ loose (heap s1) (VRef fc)) /\ conf ct (heap s1) (VRef fc) sp
+    | (Err _, s1) => Inv (heap s1)
+    end.
+  Proof.
+    intros I N Hk Ha Hl As. pose proof Hl as (Hf & Sc & _).
+    destruct (held_coll ct (heap s) l cl d k a sp fam (VRef lx) I N Hk Ha Hl As) as [lx' [E C]].
+    inversion E; subst lx'. unfold conf in C.
+    destruct (check_flat_valid ct FUEL (heap s) (a_ty sp) lx (scalar_coll_flat _ Sc) C) as [o [No So]].
+    destruct (conf_norefs ct (heap s) lx (a_ty sp) o Sc C No) as [Nr _].
+    unfold protect. cbn [val_is_scalar]. unfold deepcopy. destruct FUEL_SS as [f Ef]. rewrite Ef.
+    pose proof (dc_container ct Hflat f lx [] o (length (heap s)) (inst_at l cl d)
+                  (cstable_fstable _ _ (cstable_inst_at l cl d)) Nr So eq_refl s) as DC.
+    assert (Pre : CP ct (inst_at l cl d) (length (heap s)) lx o (heap s)).
+    { split; [split; auto|split; auto]. }
+    specialize (DC Pre). unfold bind at 1.
+    destruct (dc ct (S (S f)) (VRef lx) [] s) as [[r|e] s1]; [|exact (proj1 DC)].
+    destruct DC as (((I1 & N1) & _ & Nlx) & l' & -> & _ & L1 & Nl'). cbn [ret fst].
+    exists l'. split; auto. split; auto. unfold conf.
+    rewrite <- (check_same_content ct FUEL (a_ty sp) (heap s) (heap s1) lx l' o No Nl' Nr So).
+    exact C.
+  Qed.
+
+  Lemma tail_loose_cow l cl (d : list (nat * val)) k a sp fam fc (Mid : M val) :
+    flat_class k -> keys_managed k d ->
+    lookup_cls ct cl = Some k -> lookup_attr k a = Some sp -> leaf_coll sp fam ->
+    (forall F, cstable F ->
+       (forall h, Inv h -> F h -> refcount h fc = 0 \/ only_view ct h fc (a_ty sp)) ->
+       T (fun h => IF ct F h /\ conf ct h (VRef fc) sp) Mid
+         (fun r h => (IF ct F h /\ conf ct h (VRef fc) sp) /\ r = VRef fc) (IF ct F)) ->
+    T (fun h => (Inv h /\ inst_at l cl d h /\ loose h (VRef fc)) /\ conf ct h (VRef fc) sp)
+      (c' <- Mid ;; mutate_attr ct rec l a c' false false false false) (fun _ h => Inv h) Inv.
+  Proof.
+    intros Fc Km Hk Ha Hl HM.
+    set (G := fun h => inst_at l cl d h /\ loose h (VRef fc)).
+    assert (SG : cstable G) by (apply cstable_and; [apply cstable_inst_at|apply cstable_loose]).
+    eapply T_bind.
+    - eapply T_conseq.
+      + apply (HM G SG). intros h _ [_ [_ Z]]. left. exact Z.
+      + intros h [[I [N L]] C]. split; [split; [exact I|split; auto]|exact C].
+      + intros r h H. exact H.
+      + intros h [I _]. exact I.
+    - intros c'. apply T_pull. intros ->.
+      eapply T_pre; [|apply (mutate_attr_cow_T l cl d k a (VRef fc) false Fc Km Hk)].
+      intros h [[I [N L]] C]. split; auto. split; auto. split; auto.
+      intros _ sp' E'. rewrite Ha in E'. inversion E'; subst sp'. exact C.
+  Qed.
+
+  Lemma tail_missing_cow l cl (d : list (nat * val)) k a sp fam io :
+    flat_class k -> keys_managed k d ->
+    lookup_cls ct cl = Some k -> lookup_attr k a = Some sp -> leaf_coll sp fam -> io_plain io ->
+    T (fun h => Inv h /\ inst_at l cl d h)
+      (c' <- mutate_collection ct rec fam sp l VMissing io ;;
+       mutate_attr ct rec l a c' false false false false)
+      (fun _ h => Inv h) Inv.
+  Proof.
+    intros Fc Km Hk Ha Hl Hio. pose proof Hl as (Hf & _).
+    intros s [I N].
+    pose proof (create_coll ct Hflat rec sp fam (inst_at l cl d) Hf (astable_inst_at l cl d) s (conj I N)) as Cr.
+    unfold mutate_collection. cbn [is_missing]. unfold bind at 1. unfold bind at 1.
+    destruct (create_collection rec sp s) as [[c1|err] s1]; [|exact (proj1 Cr)].
+    destruct Cr as [[I1 N1] [fc [-> [L C]]]].
+    exact (tail_loose_cow l cl d k a sp fam fc (mutate_collection ct rec fam sp l (VRef fc) io) Fc Km Hk Ha Hl
+             (fun F SF HV => mutate_collection_leaf ct Hflat rec HrecMv fam sp l fc io F Hl Hio SF HV)
+             s1 (conj (conj I1 (conj N1 L)) C)).
+  Qed.
+
+  Lemma mk_mutator_cow_run sp l s cl (d : list (nat * val)) k :
+    nth_error (heap s) l = Some (OInst cl d) -> lookup_cls ct cl = Some k ->
+    mk_mutator ct sp l false s =
+      (let c := match assoc (a_name sp) d with Some v => v | None => class_default k (a_name sp) end in
+       if is_missing c then (Ok c, s) else protect ct c s).
+  Proof.
+    intros N Hk. unfold mk_mutator.
+    erewrite bind_ok'; [|apply read_inst_eq; eauto]. cbn [fst snd].
+    erewrite bind_ok'; [|unfold cls_of; rewrite Hk; reflexivity].
+    cbn [andb]. rewrite bind_ret_l.
+    erewrite bind_ok'; [|apply (getattr_default_run ct l (a_name sp) s cl d k N Hk)].
+    cbv zeta. rewrite orb_false_r. destruct (is_missing _); reflexivity.
+  Qed.
+
+  (* the common prefix of the copy-on-write element helpers *)
+  Lemma elem_prefix_cow l a s cl (d : list (nat * val)) k (K : cls * attr_spec -> val -> M val) :
+    Inv (heap s) -> flat_recv l (heap s) cl d k ->
+    (forall sp, lookup_attr k a = Some sp -> exists fam, leaf_coll sp fam) ->
+    (assoc a d = None -> class_default k a = VMissing) ->
+    (forall sp fam, lookup_attr k a = Some sp -> leaf_coll sp fam ->
+        (forall fc s1, (Inv (heap s1) /\ inst_at l cl d (heap s1) /\ loose (heap s1) (VRef fc)) /\
+                       conf ct (heap s1) (VRef fc) sp ->
+                       Inv (heap (snd (K (k, sp) (VRef fc) s1)))) /\
+        (assoc a d = None -> Inv (heap (snd (K (k, sp) VMissing s))))) ->
+    Inv (heap (snd ((r <- spec_for ct l a ;; c <- mk_mutator ct (snd r) l false ;; K r c) s))).
+  Proof.
+    intros I (N & Hk & Fc & Km) Hla D HK.
+    unfold bind at 1. rewrite (spec_for_run ct l a s cl d k N Hk).
+    destruct (lookup_attr k a) as [sp|] eqn:Ha; [|exact I]. cbn [snd].
+    destruct (Hla sp eq_refl) as [fam Hl].
+    pose proof (lookup_attr_name k a sp Ha) as Hn.
+    destruct (HK sp fam eq_refl Hl) as [K1 K2].
+    unfold bind at 1. rewrite (mk_mutator_cow_run sp l s cl d k N Hk). rewrite Hn. cbv zeta.
+    destruct (assoc a d) as [v|] eqn:As.
+    - destruct (held_coll ct (heap s) l cl d k a sp fam v I N Hk Ha Hl As) as [lx [-> _]].
+      cbn [is_missing].
+      pose proof (protect_held l cl d k a sp fam lx s I N Hk Ha Hl As) as PH.
+      destruct (protect ct (VRef lx) s) as [[c|e] s1]; [|exact PH].
+      destruct PH as [fc [-> H]]. apply K1. exact H.
+    - rewrite (D eq_refl). cbn [is_missing]. apply K2. reflexivity.
+  Qed.
+
+  (* obj.with_<item>(...) -- copy-on-write, every family *)
+  Theorem with_item_cow l a hh s cl d k :
+    h_inplace hh = false -> h_kw hh = None ->
+    Inv (heap s) -> flat_recv l (heap s) cl d k ->
+    (forall sp, lookup_attr k a = Some sp -> exists fam, leaf_coll sp fam) ->
+    (assoc a d = None -> class_default k a = VMissing) ->
+    Inv (heap (snd (run_helper ct l (HWithItem a) hh s))).
+  Proof.
+    intros Hin Hkw I FR Hla D. pose proof FR as (N & Hk & Fc & Km).
+    unfold run_helper. destruct (negb (h_if hh)); [exact I|]. rewrite Hin, Hkw. cbv zeta.
+    apply (elem_prefix_cow l a s cl d k (fun r c =>
+      c' <- (match family_of (a_ty (snd r)) with
+             | Some FSeq =>
+                 mutate_collection ct rec FSeq (snd r) l c
+                   (mkio (h_index hh) (pos0 hh) None None [] true
+                         (negb (is_missing (h_index hh)) && negb (h_insert hh)) TriTrue (h_insert hh))
+             | Some FMap =>
+                 mutate_collection ct rec FMap (snd r) l c
+                   (mkio (match h_pos hh with [] => VNone | k :: _ => k end)
+                         (match h_pos hh with _ :: v :: _ => v | _ => VMissing end)
+                         None None [] true false TriTrue false)
+             | Some FSet =>
+                 mutate_collection ct rec FSet (snd r) l c
+                   (mkio VMissing (pos0 hh) None None [] true false TriTrue false)
+             | None => fail AttrErr end) ;;
+      mutate_attr ct rec l a c' false false false false) I FR Hla D).
+    intros sp fam Ha Hl. pose proof Hl as (Hf & _). cbn [snd]. rewrite Hf.
+    split.
+    - intros fc s1 H.
+      destruct fam;
+        (eapply (T_run _ _ _ _ Inv s1); [eapply (tail_loose_cow l cl d k a sp _ fc); eauto| | |]; auto;
+         intros F SF HV; eapply mutate_collection_leaf; eauto; repeat split).
+    - intros As.
+      destruct fam;
+        (eapply (T_run _ _ _ _ Inv s); [eapply (tail_missing_cow l cl d k a sp); eauto; repeat split| | |]; auto;
+         split; auto).
+  Qed.
+
+  (* obj.without_<item>(x) -- copy-on-write, every family *)
+  Theorem without_item_cow l a hh s cl d k :
+    h_inplace hh = false ->
+    Inv (heap s) -> flat_recv l (heap s) cl d k ->
+    (forall sp, lookup_attr k a = Some sp -> exists fam, leaf_coll sp fam) ->
+    (assoc a d = None -> class_default k a = VMissing) ->
+    Inv (heap (snd (run_helper ct l (HWithoutItem a) hh s))).
+  Proof.
+    intros Hin I FR Hla D. pose proof FR as (N & Hk & Fc & Km).
+    unfold run_helper. destruct (negb (h_if hh)); [exact I|]. rewrite Hin. cbv zeta.
+    apply (elem_prefix_cow l a s cl d k (fun r c00 =>
+      c <- (if is_missing c00 then create_collection rec (snd r) else ret c00) ;;
+      (remove_code ct (snd r) c hh ;;; mutate_attr ct rec l a c false false false false)) I FR Hla D).
+    intros sp fam Ha Hl. pose proof Hl as (Hf & _). cbn [snd].
+    split.
+    - intros fc s1 H. cbn [is_missing]. rewrite bind_ret_l.
+      eapply (T_run _ _ _ _ Inv s1);
+        [apply (T_reassoc _ (remove_code ct sp (VRef fc) hh) (VRef fc)
+                  (fun c => mutate_attr ct rec l a c false false false false));
+         eapply (tail_loose_cow l cl d k a sp fam fc); eauto| | |]; auto.
+      intros F SF HV. apply (remove_code_inv ct Hflat sp fam fc hh F Hl SF HV).
+    - intros As. cbn [is_missing].
+      pose proof (create_coll ct Hflat rec sp fam (inst_at l cl d) Hf (astable_inst_at l cl d) s (conj I N)) as Cr.
+      unfold bind at 1.
+      destruct (create_collection rec sp s) as [[c1|err] s1]; [|exact (proj1 Cr)].
+      destruct Cr as [[I1 N1] [fc [-> [L C]]]].
+      eapply (T_run _ _ _ _ Inv s1);
+        [apply (T_reassoc _ (remove_code ct sp (VRef fc) hh) (VRef fc)
+                  (fun c => mutate_attr ct rec l a c false false false false));
+         eapply (tail_loose_cow l cl d k a sp fam fc); eauto| | |]; auto.
+      + intros F SF HV. apply (remove_code_inv ct Hflat sp fam fc hh F Hl SF HV).
+      + cbv beta. split; auto.
+  Qed.
 End CowOps.
